@@ -639,7 +639,16 @@ class Interp:
             env[k] = join(v, env.get(k, v))
         fr.env = env
         if st.orelse:
-            self.exec_block(st.orelse, fr)
+            if _has_own_break(st):
+                # `for ... else` with a break in the body: the else arm runs only when no iteration broke out
+                try:
+                    self.run_maybe([st.orelse, []], fr)
+                except _MaybeExit:
+                    if not self.in_weak(fr):
+                        raise _Raise("exit from for-else", st)
+                    raise
+            else:
+                self.exec_block(st.orelse, fr)
 
     def st_Try(self, st, fr):
         # cache idiom / generic: run the body; a handler whose type can be raised by a lookup in
@@ -859,6 +868,32 @@ class Interp:
             return self.module_vars[key]
         raise Unsupported(f"global kind {k}")
 
+    def class_value(self, cls, attr):
+        """value of a class-level assignment.  A display of callables / constants written in the class body (a dispatch
+        table) is evaluated in the class scope: the names of the class's own functions denote the plain functions."""
+        node = cls.class_assigns[attr]
+        simple = all(isinstance(n, (ast.Tuple, ast.List, ast.Dict, ast.Name, ast.Constant, ast.Lambda, ast.arguments, ast.arg, ast.Load, ast.Call, ast.Attribute,
+                                    ast.Compare, ast.BoolOp, ast.UnaryOp, ast.BinOp, ast.operator, ast.cmpop, ast.boolop, ast.unaryop, ast.IfExp, ast.Subscript, ast.keyword)) for n in ast.walk(node))
+        if not (simple and isinstance(node, (ast.Tuple, ast.List, ast.Dict))):
+            return Sym("classattr", cls.fq, attr)
+        key = ("<class>", cls.fq, attr)
+        if key not in self.module_vars:
+            env = {name: FuncV(m) for name, m in cls.methods.items()}
+            mfr = Frame(_ModuleFunc(cls.module), cls.module, env)
+            self.stack.append(mfr)
+            saved = (self.loop_depth, self.maybe)
+            self.loop_depth, self.maybe = 0, 0
+            try:
+                v = self.eval(node, mfr)
+            except Unsupported:
+                v = Sym("classattr", cls.fq, attr)
+            finally:
+                self.loop_depth, self.maybe = saved
+                self.stack.pop()
+            self.mark_shared(v, f"class:{cls.fq}.{attr}")
+            self.module_vars[key] = v
+        return self.module_vars[key]
+
     def ex_Attribute(self, e, fr):
         base = self.eval(e.value, fr)
         return self.getattr(base, e.attr, e, fr)
@@ -885,7 +920,7 @@ class Interp:
             if attr in base.cls.inner:
                 return ClassV(base.cls.inner[attr])
             if attr in base.cls.class_assigns:
-                return Sym("classattr", base.cls.fq, attr)
+                return self.class_value(base.cls, attr)
             return Sym("classattr", base.cls.fq, attr)
         if isinstance(base, Ref):
             o = self.heap[base.oid]
@@ -922,7 +957,7 @@ class Interp:
                     if meth:
                         return Bound(base, attr, meth)
                     if attr in o.cls.class_assigns:
-                        return Sym("classattr", o.cls.fq, attr)
+                        return self.class_value(o.cls, attr)
                 return Sym("attr", self.sym_of(base), attr)
             return Bound(base, attr)
         if isinstance(base, Const):
@@ -1376,6 +1411,31 @@ class Interp:
         v = self.eval(e.value, fr)
         fr.env[e.target.id] = v
         return v
+
+
+def _has_own_break(loop):
+    """a break statement that leaves THIS loop (not one of a nested loop)"""
+    def walk(stmts):
+        for x in stmts:
+            if isinstance(x, ast.Break):
+                return True
+            if isinstance(x, (ast.For, ast.While, ast.AsyncFor)):
+                if walk(x.orelse):
+                    return True
+                continue
+            if isinstance(x, (ast.FunctionDef, ast.AsyncFunctionDef, ast.ClassDef)):
+                continue
+            for fld in ("body", "orelse", "finalbody"):
+                if walk(getattr(x, fld, []) or []):
+                    return True
+            for h in getattr(x, "handlers", []) or []:
+                if walk(h.body):
+                    return True
+            for c in getattr(x, "cases", []) or []:
+                if walk(c.body):
+                    return True
+        return False
+    return walk(loop.body)
 
 
 class _MaybeExit(Exception):
